@@ -93,7 +93,7 @@ class TreeGen:
                 return rng.choice([2.4, 2.6, 3.5, 3.6, 3.9, 4.0, 4.5, 1.6])
             if name == "victory_version":
                 return 2.0 if self.vv_strict else rng.choice([2.0, 2.0, 2.1, 2.1, 0.0])
-            v = rng.choice([0.0, 1.0, -1.0, 0.5, 72.0, 1.1, 3.4e38, -3.4e38, 1e-40, float("inf"), rng.uniform(-1000, 1000)])
+            v = rng.choice([0.0, -0.0, -0.0, 1.0, -1.0, 0.5, 72.0, 1.1, 3.4e38, -3.4e38, 1e-40, -1e-40, float("inf"), float("-inf"), rng.uniform(-1000, 1000)])
             return struct.unpack("<f", struct.pack("<f", v))[0] if n == 4 else v
         if t == "str":
             if sec_name == "DataHeader" and name == "filename":
